@@ -590,8 +590,8 @@ def i5_i6(prog: Program, chk: Check) -> None:
 
 
 # --------------------------------------------------------------------- I7
-def i7(prog: Program, chk: Check) -> None:
-    chk.rule("I7", "reduced density matrix of a subset of sites: between two recorded sites a < b "
+def i7(prog: Program, chk: Check, rule: str = "I7") -> None:
+    chk.rule(rule, "reduced density matrix of a subset of sites: between two recorded sites a < b "
              "the chain that is contracted consists of one bond matrix per bond a..b (b - a of "
              "them) and one fully traced site tensor per skipped site (b - a - 1) - counted as "
              "polynomials in a and b over the loops of get_density_matrix", floor=2)
@@ -603,7 +603,7 @@ def i7(prog: Program, chk: Check) -> None:
                   and all(isinstance(e, ast.Name) for e in x.target.elts)
                   and isinstance(x.iter, ast.Call) and dotted(x.iter.func) == "zip"]
     if len(pair_loops) != 1:
-        raise AnalysisError("I7: the loop over consecutive recorded sites was not found")
+        raise AnalysisError(f"{rule}: the loop over consecutive recorded sites was not found")
     pl = pair_loops[0]
     a_name, b_name = (e.id for e in pl.target.elts)
     A, B = Poly.sym("A"), Poly.sym("B")
@@ -635,17 +635,95 @@ def i7(prog: Program, chk: Check) -> None:
                     if all(f is not None for f in fs):
                         n = fs[0] if len(fs) == 1 else (fs[1] - fs[0] if len(fs) == 2 else None)
                 if n is None:
-                    raise AnalysisError(f"I7: loop `{norm(it)}` in get_density_matrix is outside "
+                    raise AnalysisError(f"{rule}: loop `{norm(it)}` in get_density_matrix is outside "
                                         f"the enumerated idioms (range over forms in a, b)")
                 mult = mult * n
             elif isinstance(anc, (ast.If, ast.IfExp)):
                 mult = mult * Poly.sym("IF[" + norm(anc.test) + "]")
         totals[dotted(x.value)] = totals[dotted(x.value)] + mult
         sites[dotted(x.value)].append(norm(x))
+    # which bonds / sites: enumerate small concrete gaps (the index forms are affine in a, b and
+    # the loop variables) and compare the multisets of indices with lambda_{a+1..b} (the bond
+    # matrix to the right of each site from a to b-1) and the traced tensors of sites a+1..b-1
+    accesses = []
+    for x in ast.walk(pl):
+        if isinstance(x, ast.Subscript) and dotted(x.value) in totals and isinstance(x.ctx, ast.Load):
+            loops_ = [anc for anc in enclosing_chain(pl, x) if isinstance(anc, ast.For) and anc is not pl]
+            accesses.append((dotted(x.value), x.slice, loops_))
+
+    def ev(e, env):
+        if isinstance(e, ast.Constant) and isinstance(e.value, int):
+            return e.value
+        if isinstance(e, ast.Name):
+            return env.get(e.id)
+        if isinstance(e, ast.BinOp) and isinstance(e.op, (ast.Add, ast.Sub)):
+            l_, r_ = ev(e.left, env), ev(e.right, env)
+            if l_ is None or r_ is None:
+                return None
+            return l_ + r_ if isinstance(e.op, ast.Add) else l_ - r_
+        if isinstance(e, ast.UnaryOp) and isinstance(e.op, ast.USub):
+            v = ev(e.operand, env)
+            return None if v is None else -v
+        return None
+
+    def indices(slice_e, loops_, env):
+        if not loops_:
+            v = ev(slice_e, env)
+            return None if v is None else [v]
+        lp = loops_[0]
+        if not (isinstance(lp.target, ast.Name) and isinstance(lp.iter, ast.Call)
+                and dotted(lp.iter.func) == "range" and 1 <= len(lp.iter.args) <= 2):
+            return None
+        bounds = [ev(a_, env) for a_ in lp.iter.args]
+        if any(b_ is None for b_ in bounds):
+            return None
+        lo, hi = (0, bounds[0]) if len(bounds) == 1 else bounds
+        out = []
+        for v in range(lo, hi):
+            sub = indices(slice_e, loops_[1:], dict(env, **{lp.target.id: v}))
+            if sub is None:
+                return None
+            out += sub
+        return out
+    witness = None
+    for (a_, b_) in ((0, 1), (0, 2), (0, 3), (1, 4), (2, 6)):
+        got = {k: [] for k in totals}
+        readable = True
+        for (attr, sl, loops_) in accesses:
+            idx = indices(sl, loops_, {a_name: a_, b_name: b_})
+            if idx is None:
+                readable = False
+                break
+            got[attr] += idx
+        if not readable:
+            witness = ("unreadable", a_, b_, None, None)
+            break
+        exp = {"self._lambdas": list(range(a_ + 1, b_ + 1)),
+               "self._full_trace_gammas": list(range(a_ + 1, b_))}
+        for k in totals:
+            if sorted(got[k]) != exp[k]:
+                witness = (k, a_, b_, sorted(got[k]), exp[k])
+                break
+        if witness:
+            break
+    if witness and witness[0] == "unreadable":
+        chk.add(rule, u, "bond matrices / traced sites between a and b: index sets", None,
+                "index expressions outside the enumerated idioms (affine in a, b and range "
+                "variables)", pl)
+    else:
+        chk.add(rule, u, "bond matrices / traced sites between a and b: index sets for gaps "
+                "(0,1) (0,2) (0,3) (1,4) (2,6)", witness is None,
+                "lambda_{a+1..b} and the traced tensors of sites a+1..b-1, each once"
+                if witness is None else
+                f"between sites {witness[1]} and {witness[2]} the contraction uses "
+                f"{witness[0].split('.')[-1]}{witness[3]}, the chain between them consists of "
+                f"{witness[0].split('.')[-1]}{witness[4]}: a bond matrix enters twice and another is "
+                f"missing - the reduced state of non-adjacent sites is wrong (trace, positivity) "
+                f"once the chain is correlated", pl)
     want = {"self._lambdas": B - A, "self._full_trace_gammas": B - A - Poly.const(1)}
     for k in totals:
         ok = totals[k] == want[k]
-        chk.add("I7", u, f"{k.split('.')[-1]} between sites a and b: {sites[k]}", ok,
+        chk.add(rule, u, f"{k.split('.')[-1]} between sites a and b: {sites[k]}", ok,
                 f"{totals[k]} of them" if ok else
                 f"{totals[k]} of them, expected {want[k]}: bond matrices inside a gap of two or "
                 f"more skipped sites are dropped (or counted twice); the reduced state of "
